@@ -35,5 +35,5 @@ def main(tier, replay=None):
                 "failed recipient and no other, original appended, no notice for a #@[] sender")
     res.assumptions = ["virtual kernel (appendix A)", "failed recipients' addresses are pairwise distinct, which identifies the original of a notice"]
     res.require_nonzero("evaluations", "blank_lines_neutralised", "virtual_prefix_stripped", "single_bounces_checked", "double_bounces_checked", "expired_deferrals", "machine_crashes")
-    lib_conformance(res, rd, srca, ['bytes', 'io'], tier, asan=True)
+    lib_conformance(res, rd, srca, ['bytes', 'io', 'date'], tier, asan=True)
     return res.finish()
